@@ -253,18 +253,23 @@ def succ_before(R, st, v):
     return out
 
 
-def step(r, R, st, before=None):
+FIX_OPS = ['fix_variable'] * 3 + ['fix_variables'] * 3 + ['remove_variable']
+
+
+def step(r, R, st, before=None, ops=None):
     """one operation on the CQM + the references; returns (op name, input-class facts) or None when nothing applies.
     `before(kind, v, a, target)` is called right before a single-variable removal is executed (kind 'R' parent
     remove_variable, 'F' parent fix_variable with value a, 'V' the view `target`'s own remove_variable)."""
     before = before or (lambda *a: None)
+    ops_arg = ops
     c = R['c']
     mv = list(c.variables)
     st['vts'] = {v: c.vartype(v).name for v in mv}     # generation only (which values / operations are admissible)
     vts, refs = st['vts'], st['refs']
-    ops = ['fix_variable'] * 4 + ['fix_variables'] * 3 + ['remove_variable'] * 3 + ['relabel', 'expr.remove_variable', 'expr.set_linear',
-                                                                                   'expr.add_quadratic', 'add_variable', 'flip_variable']
+    ops = ops_arg or (['fix_variable'] * 4 + ['fix_variables'] * 3 + ['remove_variable'] * 3 +
+                      ['relabel', 'expr.remove_variable', 'expr.set_linear', 'expr.add_quadratic', 'add_variable', 'flip_variable'])
     op = r.choice(ops)
+    st['last'] = None
     if not mv and op != 'add_variable':
         return None
     facts = {}
@@ -274,6 +279,7 @@ def step(r, R, st, before=None):
         facts['successor listed before the removed variable'] = bool(succ_before(R, st, v))
         before('F', v, a, None)
         R.do(f'c.fix_variable({v!r}, {fl(a)})')
+        st['last'] = {v: a}
         for ref in refs.values():
             ref.fix(v, a)
     elif op == 'fix_variables':
@@ -289,11 +295,13 @@ def step(r, R, st, before=None):
             for ref in refs.values():
                 ref.fix(v, vals[v])
         op = f'fix_variables[{len(vs)}]'
+        st['last'] = dict(vals)
     elif op == 'remove_variable':
         v = r.choice(mv)
         facts['successor listed before the removed variable'] = bool(succ_before(R, st, v))
         before('R', v, None, None)
         R.do(f'c.remove_variable({v!r})')
+        st['last'] = {v: 0}
         for ref in refs.values():
             ref.remove(v)
     elif op == 'relabel':
